@@ -23,10 +23,11 @@ pub fn c19(s: &mut Sess, rng: &mut Rng, n: u64) {
     let ns = [1u64, 2, 3, 5, 1000, 10_000];
     for i in 0..n {
         let n1 = *rng.pick(&ns);
-        let pre = i % 40 == 17; // the 65 792-directory tree: rarely
+        let pre = i % 20 == 17; // the 65 792-directory tree: rarely
         s.begin_case(&format!("cfg kind=string n={n1} sync=1 pre={}", pre as u8));
         if !s.op("open").starts_with("ok") { s.out.oracle_fail("C19: first open failed".into()); continue; }
-        s.op("tracedrop");
+        // the creating open's calls, in order (tree before the settings file that records it)
+        s.op("trace");
         populate(s, rng);
         let (iter0, _) = snapshot(s);
         s.op("close");
@@ -147,7 +148,7 @@ pub fn c08(s: &mut Sess, rng: &mut Rng, n: u64) {
         s.begin_case(&format!("cfg kind=bytes n={} sync=1 pre=0 verify={} fail=0", *rng.pick(&[2u64, 10_000]), verify as u8));
         if !s.op("open").starts_with("ok") { continue; }
         // a few keys over few contents
-        let contents: [&[u8]; 4] = [b"X", b"YY", b"ZZZ", b"hello"];
+        let contents: [&[u8]; 4] = [b"X", b"", b"ZZZ", b"hello"];
         let mut map: std::collections::BTreeMap<Vec<u8>, Vec<u8>> = Default::default();
         for i in 0..rng.range(1, 4) {
             let k = vec![b'a' + i as u8];
@@ -212,7 +213,8 @@ pub fn c08(s: &mut Sess, rng: &mut Rng, n: u64) {
                     let Some(h) = refd.iter().nth(rng.below(refd.len() as u64) as usize).cloned() else { continue };
                     if exp_missing.contains(&h) { continue; }
                     let sz = size_of(&h).unwrap_or(0);
-                    let newc: Vec<u8> = match rng.below(3) { 0 => vec![], 1 => vec![b'!'; sz], _ => vec![b'!'; sz + 1] };
+                    // (an empty blob has only one way to be damaged: gaining bytes)
+                    let newc: Vec<u8> = if sz == 0 { vec![b'!'; rng.range(1, 3) as usize] } else { match rng.below(3) { 0 => vec![], 1 => vec![b'!'; sz], _ => vec![b'!'; sz + 1] } };
                     s.op(&format!("setblob {h} {}", hx(&newc)));
                     if verify { exp_corrupt.insert(h); }
                     s.out.count("c08.corrupt");
